@@ -16,22 +16,27 @@ from harness import common as H
 LEVEL = "model_checking"
 FUNCTIONS = ["strax.processing.pulse_processing.find_hits", "_find_hits", "strax.utils.growing_result", "record_links",
              "zero_out_of_bounds", "integrate", "strax.processing.data_reduction.cut_outside_hits", "_cut_outside_hits",
-             "cut_baseline", "strax.processing.general.overlap_indices"]
+             "cut_baseline", "baseline", "strax.processing.general.overlap_indices"]
 BOUNDS = {
     "quick": "hit finder: 1 record x 4 samples and 2 records x 3 samples, samples symbolic in [-3,6], thresholds symbolic "
              "(scalar and per channel), record length symbolic <= record size, baseline fractional part in {0, 1/2}; "
              "links: 3-4 records, 2 channels, times symbolic; reduction: pulses of 1-2 fragments x 3 samples, extensions "
-             "symbolic in [0,3]; integrate / zero_out_of_bounds: 2 records x 4 samples",
+             "symbolic in [0,3]; integrate / zero_out_of_bounds: 2 records x 4 samples; baseline: one pulse of symbolic "
+             "length 1..4 in a 4-sample record, raw samples symbolic in [0,40] / [-40,40], baseline_samples in {2,3,6}; "
+             "cut_baseline: pulses of 1-2 fragments x 3 samples, n_before <= 3, n_after <= pulse length + 1",
     "thorough": "2 records x 4 samples, 3 fragments, 2 channels for the reduction",
 }
-ASSUMPTIONS = ["sample values are integers within int16, thresholds positive integers; int16/int32 wrap-around not modelled",
+ASSUMPTIONS = ["sample values are integers within int16, thresholds non-negative integers; int16/int32 wrap-around not modelled",
                "record times >= 1 ns (record_links initialises its 'expected next start' table with 0, so a non-first "
-               "fragment that is the first of its channel and sits at time 0 is linked to index -1; with thresholds <= 0 a "
-               "hit of height 0 gets a stale or unbound max_time: both are boundary observations outside realistic inputs)",
+               "fragment that is the first of its channel and sits at time 0 is linked to index -1: a boundary observation "
+               "outside realistic inputs)", "baseline(): flip=True; the standard deviation is an uninterpreted non-negative real; "
+               "float32 storage of the baseline is exact for the small values used",
                "baselines with fractional part 0 or 1/2 (exact in float32); noise-scaled thresholds only with "
                "min_height_over_noise = 0 (the float product baseline_rms * factor is outside)",
                "NUMBA_DISABLE_JIT=1: kernels run as their Python source; witnesses replayed on the compiled kernels"]
-OUTSIDE = ["filter_records (scipy convolution)", "noise-scaled thresholds with non-dyadic rms", "int16 overflow in baseline()"]
+OUTSIDE = ["filter_records (scipy convolution)", "noise-scaled thresholds with non-dyadic rms", "int16 overflow in baseline()",
+           "baseline(flip=False) vs the always-added baseline fraction; baselines of multi-fragment pulses; float32 vs "
+           "float64 mean of > 1024-sample records"]
 STUBS = ["np constructors -> object arrays (pulse_processing, data_reduction, utils)", "min/max/int shims"]
 S_MAX = 4
 
